@@ -1,7 +1,7 @@
 """Shared constraint-flow lints (D1, D3, D4, D5) for the gadget properties C04–C07, C19 (and the gadget part of C20)."""
 import json, os
 from ..core import norm, short, walk, callee, callee_decl, peel, last_seg, mir_callee
-from ..engines import dlint, hirq, mustcall as mc, reach
+from ..engines import dlint, hirq, mustcall as mc, reach, valflow
 from .. import tables, facts
 
 SCOPES = {
@@ -120,6 +120,31 @@ def mine_looped(w):
             continue
         for g in sorted(looped_checks(f)):
             rows.append(dict(property=prop, fn=f['_xid'], looped_call=g))
+    return rows
+
+
+def bound_flows(f):
+    """{(parameter, workspace circuit-building callee)} such that the parameter reaches a bound-typed argument of the callee by value"""
+    vf = valflow.ValFlow(f)
+    out = {}
+    for n, c, deps in vf.call_sites():
+        if not c.startswith(('midnight_', '<midnight_')) or not valflow.circuit_call(n):
+            continue
+        for p in deps:
+            out.setdefault((p, c), n)
+    return out
+
+
+def mine_boundflow(w):
+    rows = []
+    for f in w.all_fns(CRATES):
+        if '::tests::' in f['_nid'] or '/tests' in f['file']:
+            continue
+        prop = prop_of_file(f['file'])
+        if prop is None or not valflow.bound_params(f):
+            continue
+        for (p, c) in sorted(bound_flows(f)):
+            rows.append(dict(property=prop, fn=f['_xid'], param=p, reaches=c))
     return rows
 
 
@@ -278,3 +303,23 @@ def run_d(ck, w, prop, floors):
         ck.record(f'{P}.D5b', f'{r["fn"]}|{short(r["looped_call"])}', ok, f'{short(r["looped_call"])} applied per element',
                   f'{r["fn"]} no longer applies {r["looped_call"]} inside its iteration: the per-element check was dropped or hoisted out of the loop', hirq.fn_loc(f))
     ck.count(f'{P}.D5b pairs', len(rowsl))
+    # ------------------------------------------------------------------ D7
+    ck.rule(f'{P}.D7', 'declared bounds reach their checks by VALUE: for each (function, integer parameter, constraint-emitting callee) of rules/boundflow.json the '
+                       'parameter still flows, as a value (element values of collections; not merely through a length or repetition count), into a bound-typed '
+                       'argument of that callee.  A range check whose limit no longer depends on the declared bit length / size enforces some other bound.')
+    rows7 = [r for r in load_rules('boundflow.json') if r['property'] == prop]
+    byfn = {}
+    for r in rows7:
+        byfn.setdefault(r['fn'], []).append(r)
+    for fx, rs in sorted(byfn.items()):
+        f = w.fn_x(fx, required=False)
+        if f is None:
+            ck.bad(f'{P}.D7', f'{fx}:anchor', f'function {fx} of the bound-flow table not found (needs triage)')
+            continue
+        cur = bound_flows(f)
+        for r in rs:
+            ok = (r['param'], r['reaches']) in cur
+            ck.record(f'{P}.D7', f'{fx}|{r["param"]}|{short(r["reaches"])}', ok, f'`{r["param"]}` reaches {short(r["reaches"])} by value',
+                      f'{fx}: the declared bound `{r["param"]}` no longer reaches {r["reaches"]} by value (it may still decide how many checks run, but not '
+                      f'their limits): the limit that call enforces is now independent of the declared bound', hirq.fn_loc(f))
+    ck.count(f'{P}.D7 triples', len(rows7))
